@@ -1478,10 +1478,14 @@ func asUncatchableException(v interface{}) error {
 func (r *Runtime) RunProgram(p *Program) (result Value, err error) {
 	vm := r.vm
 	recursive := len(vm.callStack) > 0
+	ctxPushed := false
 	defer func() {
 		if recursive {
-			vm.sp -= 2
-			vm.popCtx()
+			// pushCtx() itself fails when the call depth limit is reached: nothing to remove then
+			if ctxPushed {
+				vm.sp -= 2
+				vm.popCtx()
+			}
 		} else {
 			vm.callStack = vm.callStack[:len(vm.callStack)-1]
 			// also when the program was aborted (interrupt, stack overflow, foreign panic): a stale
@@ -1502,6 +1506,7 @@ func (r *Runtime) RunProgram(p *Program) (result Value, err error) {
 	}()
 	if recursive {
 		vm.pushCtx()
+		ctxPushed = true
 		vm.stash = &r.global.stash
 		vm.privEnv = nil
 		vm.newTarget = nil
